@@ -323,6 +323,7 @@ def run_unit(unit_name, index_tuple=None, with_probes=True, params=None):
     res.assumption_notes = unit.assumption_notes
     vr = verus_run(fpath, text)
     res.verus = {k: vr[k] for k in ('cmd', 'rc', 'timed_out', 'wall_s', 'cached')}
+    res.all_diags = vr['diags']
     _interpret(res, vr, asm)
     if with_probes and res.status in ('ok', 'failed'):
         _run_probes(res, unit, ix)
